@@ -150,6 +150,26 @@ Theorem C19_candidates_sorted : forall d,
 Proof. exact cands_sorted. Qed.
 Print Assumptions C19_candidates_sorted.
 
+(* A database created by an older release and upgraded by migrate14to15 (is_mine default 1): nothing that was stored
+   before the upgrade is ever deleted by a cleanup pass, over every later history. *)
+Theorem C19_migrated_never_deleted : forall legacy post sb st fl dk ops r,
+  hashes_unique (migrated_db legacy post sb st fl dk) -> In r legacy -> ~ In (fst (fst r)) (user_deleted ops) ->
+  (forall dl, In dl (fst (run ops (migrated_db legacy post sb st fl dk))) -> ~ In (fst (fst r)) dl) /\
+  In (fst (fst r)) (own_hashes (snd (run ops (migrated_db legacy post sb st fl dk)))).
+Proof. exact migrated_never_deleted. Qed.
+Print Assumptions C19_migrated_never_deleted.
+
+(* After a restart (BlobManager.setup) only blobs whose file is really in the blob directory are 'finished', i.e. charged
+   to a storage class; on an emptied directory nothing is charged, so no pass can delete anything for vanished blobs. *)
+Theorem C19_setup_only_present : forall now sizes d b,
+  In b (blobs (setup now sizes d)) -> b_fin b = true -> In (b_hash b) (disk d).
+Proof. exact setup_only_present. Qed.
+Print Assumptions C19_setup_only_present.
+
+Theorem C19_setup_empty_dir_no_usage : forall now sizes d net, disk d = [] -> used_mb net (setup now sizes d) = 0.
+Proof. exact setup_empty_dir_no_usage. Qed.
+Print Assumptions C19_setup_empty_dir_no_usage.
+
 (* A history can be cut anywhere (the correspondence steps the extracted [run] one operation at a time). *)
 Theorem C19_run_app : forall ops1 ops2 d,
   run (ops1 ++ ops2) d =
